@@ -133,6 +133,49 @@ static inline Mat gen_matrix(Rng &r, int nmin, int nmax, bool allow_tall, bool c
     return A;
 }
 
+// Perfect matching of columns to rows (augmenting paths).
+static inline bool structurally_nonsingular(const Mat &A) {
+    if (A.m < A.n) return false;
+    std::vector<int> match_row(A.m, -1);
+    std::vector<char> seen;
+    struct Rec { static bool go(const Mat &A, int j, std::vector<char> &seen, std::vector<int> &mr) {
+        for (int p = A.colptr[j]; p < A.colptr[j + 1]; p++) { int r = A.rowind[p]; if (seen[r]) continue; seen[r] = 1;
+            if (mr[r] < 0 || go(A, mr[r], seen, mr)) { mr[r] = j; return true; } }
+        return false; } };
+    for (int j = 0; j < A.n; j++) { seen.assign(A.m, 0); if (!Rec::go(A, j, seen, match_row)) return false; }
+    return true;
+}
+
+// Symmetric matrix (pattern and values) from the lower triangle of a square G, as a symmetric-storage matrix file
+// describes it; some diagonal entries are left out (drop = probability per diagonal entry) as long as the matrix stays
+// structurally nonsingular.
+static inline Mat symmetrize(Rng &r, const Mat &G, double drop) {
+    int n = G.n;
+    std::set<std::pair<int, int>> P;
+    std::vector<std::vector<std::pair<int, int>>> low(n); // per column: (row, index in G)
+    for (int j = 0; j < n; j++) for (int k = G.colptr[j]; k < G.colptr[j + 1]; k++) { int i = G.rowind[k]; if (i < n && i > j) { P.insert({j, i}); P.insert({i, j}); } }
+    for (int j = 0; j < n; j++) P.insert({j, j});
+    Mat S = mat_from_pattern(n, n, P);
+    for (int j = 0; j < n; j++) if (r.chance(drop)) {
+        std::set<std::pair<int, int>> Q = P; Q.erase({j, j});
+        if (Q.size() < (size_t)n) continue;
+        bool colempty = true; for (auto &cr : Q) if (cr.first == j) { colempty = false; break; }
+        if (colempty) continue;
+        Mat T = mat_from_pattern(n, n, Q);
+        if (structurally_nonsingular(T)) { P.swap(Q); S = T; }
+    }
+    // values: lower triangle drawn, mirrored
+    for (int j = 0; j < n; j++) for (int k = S.colptr[j]; k < S.colptr[j + 1]; k++) if (S.rowind[k] >= j) {
+        double re = r.sym(), im = r.sym(); if (std::fabs(re) < 1e-3) re = 0.5;
+        if (S.rowind[k] == j) re += (re >= 0 ? 2.0 : -2.0);
+        S.re[k] = re; S.im[k] = im;
+    }
+    for (int j = 0; j < n; j++) for (int k = S.colptr[j]; k < S.colptr[j + 1]; k++) { int i = S.rowind[k]; if (i < j) {
+        for (int q = S.colptr[i]; q < S.colptr[i + 1]; q++) if (S.rowind[q] == j) { S.re[k] = S.re[q]; S.im[k] = S.im[q]; break; } } }
+    S.family = G.family + "/sym";
+    return S;
+}
+
 // transpose-convert CSC -> CSR arrays (rowptr, colind, values) for SLU_NR storage
 static inline void csc_to_csr(const Mat &A, std::vector<int> &rowptr, std::vector<int> &colind, std::vector<double> &re, std::vector<double> &im) {
     rowptr.assign(A.m + 1, 0);
